@@ -6,7 +6,7 @@ VERIF = os.path.dirname(os.path.dirname(os.path.abspath(__file__)))
 CLAIMED = {
     "C03": dict(
         engine="R+P", technique="stateful property-based testing (proptest op sequences with a drop ledger; ASan+LSan leg)",
-        text="Generated create/convert/clone/borrow/drop histories over the runtime's FFI-safe result/option/owned-slice/callback types with drop-recording payloads, interleaved with foreign-side scratch buffers (diplomat_alloc/diplomat_free pairs, zero bytes included); the ledger must show every payload dropped exactly once and only with its owner. Exploration: finds double drops/leaks on the histories generated, proves nothing beyond them.",
+        text="Generated create/convert/clone/borrow/drop histories over the runtime's FFI-safe result/option/owned-slice/callback types with drop-recording payloads, interleaved with foreign-side scratch buffers (diplomat_alloc/diplomat_free pairs, zero bytes included), results with one plain-data arm and stateless callbacks (NULL data, destructor counted); the ledger must show every payload dropped exactly once and only with its owner. Exploration: finds double drops/leaks on the histories generated, proves nothing beyond them.",
         note="Trusted: proptest, rustc, ASan/LSan. Payload ids are thread-local; foreign-built values use the documented repr(C) layouts.",
         ref="DESIGN.md §2 C03"),
     "C12": dict(
@@ -16,7 +16,7 @@ CLAIMED = {
         ref="DESIGN.md §2 C12"),
     "C16": dict(
         engine="R", technique="round-trip property testing + exhaustive enumeration against an independent UTF-8 table validator",
-        text="Round trips of &[T]/&mut [T]/Box<[T]>/&str/Box<str> through their FFI views for 13 element types and generated lengths/bit patterns, NULL+0 views, diplomat_alloc/free pairs; diplomat_is_str compared with an independent well-formed-UTF-8 validator exhaustively on all strings of length <=3 (thorough: plus all 4-byte strings with lead >= 0xF0) and on generated near-valid longer strings.",
+        text="Round trips of &[T]/&mut [T]/Box<[T]>/&str/Box<str> through their FFI views for 13 element types and generated lengths/bit patterns (whole buffers, sub-slices starting at elements 1..4, and empty windows of live buffers, pointer identity included), NULL+0 views, diplomat_alloc/free pairs; diplomat_is_str compared with an independent well-formed-UTF-8 validator exhaustively on all strings of length <=3 (thorough: plus all 4-byte strings with lead >= 0xF0) and on generated near-valid longer strings.",
         note="Trusted: the hand-written Unicode table 3-7 validator, proptest, ASan. Exhaustive only for the stated sub-domains.",
         ref="DESIGN.md §2 C16"),
 }
@@ -29,7 +29,7 @@ CLAIMED["C15"] = dict(
 
 CLAIMED["C14"] = dict(
     engine="P", technique="metamorphic property-based testing over generated programs (Hypothesis) with byte-wise directory comparison",
-    text="Four metamorphic relations (re-run in a fresh process, permutation of modules/items, insertion of an unreferenced type, insertion of non-bridge items) on generated programs with random abi_rename/rename/disable placement, for all seven backends; any byte difference in the compared files is a violation. Exploration of the input space; hash-seed dependence only as far as fresh processes expose it.",
+    text="Metamorphic relations (re-run in a fresh process; permutation of modules/items; insertion of an unreferenced type - plain, with outgoing references or callbacks, disabled for every backend, a same-named type in a module of its own, an identical method-less struct in a second namespace, a callback-taking struct next to a trait; insertion of non-bridge items incl. plain modules with traits and look-alike attributes) on generated programs with random abi_rename/rename/disable placement, for all seven backends; any byte difference in the compared files is a violation. Exploration of the input space; hash-seed dependence only as far as fresh processes expose it.",
     note="Trusted: the list of aggregate files that may legitimately change when a type is added (index.mjs/index.d.ts, lib.g.dart, <lib>_ext.cpp).",
     ref="DESIGN.md §2 C14")
 
@@ -41,7 +41,7 @@ CLAIMED["C09"] = dict(
 
 CLAIMED["C05"] = dict(
     engine="P", technique="grammar-based generation of valid programs plus single-fault mutation (Hypothesis), oracle = documented rule table, evaluated in-process through the public diplomat_core API and cross-checked on the diplomat-tool binary",
-    text="Both directions of the gate: programs built valid-by-construction for a drawn feature profile must lower cleanly; each of ~70 (rule x position) single-fault mutants (incl. callback / trait / DiplomatWrite placement and self kinds) must be rejected with an error whose context names the planted Type::method (or type). Exploration over programs x profiles x faults.",
+    text="Both directions of the gate: programs built valid-by-construction for a drawn feature profile must lower cleanly; each of ~80 (rule x position) single-fault mutants (incl. callback / trait / DiplomatWrite placement, self kinds, std Option of strings and slices in nested positions, elided returns through &self or a parameter on every kind of owner type, rule violations inside bridged trait methods, iterables without an iterator) must be rejected with an error whose context names the planted Type::method (or type). Exploration over programs x profiles x faults.",
     note="Trusted: the fault table transcribed from the book and the property statement; dv-probe (a thin JSON wrapper over hir::TypeContext::from_syn). Rules on which the docs are silent are not asserted.",
     ref="DESIGN.md §2 C05")
 
@@ -71,7 +71,7 @@ CLAIMED["C11"] = dict(
 
 CLAIMED["C07"] = dict(
     engine="P", technique="grammar-based program generation (Hypothesis) with static translation validation: parsed Dart/Kotlin native declarations vs a reference C-ABI model",
-    text="Generated programs in the Dart and Kotlin profiles; every @ffi.Native signature, ffi.Struct/Union class, JNA interface function, Structure/Union class (incl. getFieldOrder) JNA callback interface and bridged-trait vtable / method interface (Runner_*.invoke) is parsed, resolved recursively and compared with the model's C ABI of the function / repr(C) struct: arity, order, width, signedness, float kind, pointer vs by-value, record shapes. Exploration; declarations are validated as text, not executed.",
+    text="Generated programs in the Dart and Kotlin profiles (Dart: with special-method attributes, cmp::Ordering = i8); every @ffi.Native signature, ffi.Struct/Union class, JNA interface function, Structure/Union class (incl. getFieldOrder) JNA callback interface and bridged-trait vtable / method interface (Runner_*.invoke) is parsed, resolved recursively and compared with the model's C ABI of the function / repr(C) struct: arity, order, width, signedness, float kind, pointer vs by-value, record shapes. Exploration; declarations are validated as text, not executed.",
     note="Trusted: the two text parsers, the reference ABI model (validated against compiled code by C01), the fixed table of accepted scalar spellings. No Dart/Kotlin toolchain exists in the sandbox.",
     ref="DESIGN.md §2 C07")
 
